@@ -187,9 +187,14 @@ def threaded_source(dispatcher, sched, overrides=None, share=()):
     tree = _Rewrite(share).visit(tree)
     ast.fix_missing_locations(tree)
     g = dict(py.__globals__)
+    import types
     for k, v in list(g.items()):
         if hasattr(v, 'py_func'):
-            g[k] = v.py_func
+            # re-bound to the new namespace: helpers extracted from the kernel call each other interpreted as well, so proxies flow through any depth
+            pf = v.py_func
+            nf = types.FunctionType(pf.__code__, g, pf.__name__, pf.__defaults__, pf.__closure__)
+            nf.__kwdefaults__ = pf.__kwdefaults__
+            g[k] = nf
     g['__par'] = sched.par
     g['__share'] = lambda x, nm: x if (isinstance(x, Shared) or not isinstance(x, np.ndarray)) else Shared(x, nm, sched)
     if overrides:
